@@ -132,6 +132,7 @@ package rtpmpeg4audio
 //@ typeinv Decoder d
 //@   inv[C08] d.SizeLength >= 1 && d.IndexLength >= 0 && d.IndexDeltaLength >= 0
 //@   inv[C08] 0 <= d.fragmentsSize && d.fragmentsSize <= 65535
+//@   inv[C08] d.fragmentsSize == sumlen(d.fragments, len(d.fragments))
 
 // The AU-header section of headersLen bits lies inside buf and holds at least one header.
 // (The index into dataLens inside the second loop is not claimed: it needs the count computed
